@@ -736,7 +736,7 @@ def buildable(rc):
 
 def generate(rng, tier):
     cases = []
-    nround = 330 if tier == "quick" else 4000
+    nround = 330 if tier == "quick" else 2800
     want = nround
     tries = 0
     # the four corner-type combinations, with fractional subregion corners where the cell allows
@@ -770,7 +770,7 @@ def generate(rng, tier):
             cases.append(rc)
             want -= 1
     # files written by this module: current layout (well-formed and malformed) and legacy layout
-    nfor = 110 if tier == "quick" else 1400
+    nfor = 110 if tier == "quick" else 1000
     k = 0
     tries = 0
     while k < nfor and tries < 20 * nfor:
@@ -783,7 +783,7 @@ def generate(rng, tier):
         rc["defect"] = None if rng.random() < 0.4 else rng.choice(DEFECTS)
         cases.append(rc)
         k += 1
-    nleg = 80 if tier == "quick" else 900
+    nleg = 80 if tier == "quick" else 700
     for _ in range(nleg):
         cases.append(gen_legacy(rng, tier))
     cases.append(dict(kind="sample"))
